@@ -118,9 +118,9 @@ Recs(s) == UNION {{[p |-> s.joins[k][i].p, sub |-> k, t |-> s.joins[k][i].lo] : 
 CleanupOnlyOld == /\ last.op = "cleanup" => /\ Recs(st) = {r \in Recs(prev.st) : AgeIsMax \/ now - r.t < Age}
                                             /\ [st EXCEPT !.joins = prev.st.joins] = prev.st
                   /\ last.op \notin {"cleanup", "join", "leave"} => st.joins = prev.st.joins
-(* what the detector remembers is what the design remembers and lies within one window of the subnet's latest join *)
-RecordsAreHistory == /\ Recs(st) \subseteq hist
-                     /\ \A s \in DOMAIN st.joins : LET q == st.joins[s] IN q # <<>> => \A i \in 1..Len(q) : q[Len(q)].lo - q[i].lo <= Win
+(* what the detector remembers is what the design remembers, and lies within one window of the subnet's latest join *)
+RecordsAreHistory == Recs(st) \subseteq hist
+RecordsWithinWindow == \A s \in DOMAIN st.joins : LET q == st.joins[s] IN q # <<>> => \A i \in 1..Len(q) : q[Len(q)].lo - q[i].lo <= Win
 NoPanic == ~last.panic
 
 (* deliberately false: counterexamples show that the bounds reach these situations *)
